@@ -209,6 +209,9 @@ pub struct RawResponseMessageEncoder;
 /// Tokio [`Encoder`] to encode an [`ResponseMessage`] as a byte stream.
 pub struct ResponseMessageEncoder;
 
+/// Upper bound on the buffer space reserved from a (not yet validated) frame length.
+const MAX_RESERVE: usize = 1 << 16;
+
 const OP_SHIFT: usize = 61;
 const OP_MASK: u64 = 0b111 << OP_SHIFT;
 
@@ -730,7 +733,7 @@ impl Decoder for RawResponseMessageDecoder {
         let body_len = (body_len_and_tag & !OP_MASK) as usize;
         let required = HEADER_INIT_LEN + node_len + lane_len + body_len;
         if src.remaining() < required {
-            src.reserve(required - src.remaining());
+            src.reserve((required - src.remaining()).min(MAX_RESERVE));
             return Ok(None);
         }
         src.advance(HEADER_INIT_LEN);
@@ -781,7 +784,7 @@ impl Decoder for RawRequestMessageDecoder {
         let body_len = (body_len_and_tag & !OP_MASK) as usize;
         let required = HEADER_INIT_LEN + node_len + lane_len + body_len;
         if src.remaining() < required {
-            src.reserve(required);
+            src.reserve((required - src.remaining()).min(MAX_RESERVE));
             return Ok(None);
         }
         src.advance(HEADER_INIT_LEN);
